@@ -103,6 +103,28 @@ TArr ==
                  \* the marshalled message, byte for byte (logged up to 2 KiB)
                  \cup (IF Len(e.wire) > 0 /\ e.wire # ArrayMsg(e.index, FlattenSeq(e.elts)) THEN {"wire"} ELSE {}))
 
+\* large arrays (Layer P only): the harness supplies, for each probe, the position of the
+\* greatest index <= probe (0 if none); the spec verifies the witness against the index list
+\* and reads the expected answer off it
+BigWant(e, x) ==
+  LET p == e.pos[x] IN IF p > 0 /\ e.index[p] = e.probes[x] THEN e.elts[p] ELSE <<>>
+TArrBig ==
+  /\ Ev("arrbig")
+  /\ LET e == Trace[l]
+         n == Len(e.index)
+         np == Len(e.probes) IN
+     /\ Report("W:array-witness",
+               (IF ~Ascending(e.index) \/ e.nelts # n \/ Len(e.pos) # np THEN {0} ELSE {})
+               \cup {x \in 1..np : LET p == e.pos[x] IN
+                        ~(p \in 0..n /\ (p = 0 \/ e.index[p] <= e.probes[x]) /\ (p = n \/ e.index[p + 1] > e.probes[x]))})
+     /\ Report("P:C16:outcome", (IF e.pan # "" THEN {"panic"} ELSE {}) \cup (IF e.err # "" THEN {"error-class"} ELSE {}))
+     /\ (e.err = "" /\ e.pan = "") =>
+          /\ Report("P:C16:typed",     {x \in 1..np : e.typed[x]     # BigWant(e, x)})
+          /\ Report("P:C16:generic",   {x \in 1..np : e.generic[x]   # BigWant(e, x)})
+          /\ Report("P:C16:raw",       {x \in 1..np : e.raw[x]       # BigWant(e, x)})
+          /\ Report("P:C16:roundtrip", {x \in 1..np : e.rttyped[x] # BigWant(e, x) \/ e.rtgeneric[x] # BigWant(e, x)})
+          /\ Report("P:C16:count", IF e.cnt # n THEN {e.cnt} ELSE {})
+
 \* ---- C17 --------------------------------------------------------------------
 CeilDiv(a, b) == (a + b - 1) \div b
 \* worst-case protobuf size of a bitmap of `bits` bits with a rank index per
@@ -133,7 +155,7 @@ TSizePair ==
      /\ Report("P:C17:prefix-independent", IF e.len1 < 0 \/ e.len2 < 0 \/ d > 8 THEN {d} ELSE {})
      /\ LayerM => Report("M:shape", IF e.sameshape # 1 THEN {1} ELSE {})
 
-TNext == TCodec \/ TCodecS16 \/ TCodecBytes \/ TCodecDummy \/ TCodecStruct \/ TArr \/ TSize \/ TSizePair
+TNext == TCodec \/ TCodecS16 \/ TCodecBytes \/ TCodecDummy \/ TCodecStruct \/ TArr \/ TArrBig \/ TSize \/ TSizePair
 
 Accepted == TLCGet("stats").diameter - 1 = Len(Trace)
 =============================================================================
